@@ -435,7 +435,7 @@ struct Exec {
     while (heap_take_violation(&hv)) {
       if (hv.kind == "cache_mismatch") viol("C09", "cache_mismatch", "build_pl", hv.detail);
       else if (hv.kind == "exit") viol(faulted ? "C17" : "C14", "exit", kOpShort[k], hv.detail);
-      else if (hv.kind == "step_budget") viol("C14", "step_budget", kOpShort[k], hv.detail);
+      else if (hv.kind == "step_budget") { viol("C14", "resource_budget", kOpShort[k], hv.detail, true); probe("resource_budget_exceeded"); }
       else viol(mem_prop(k, faulted), hv.kind.c_str(), kOpShort[k], hv.detail);
     }
   }
@@ -775,8 +775,8 @@ struct Exec {
     // Known finding (DESIGN.md §7, KF-1): after error recovery the parser list can be longer than the token list
     // (an error shift adds a set without consuming a token); make_parse then indexes the token array and its
     // terminal-node array with parser-list indexes that run past the tokens, and the result depends on memory
-    // outside the arrays.  Such a parse is not judged and its tree is not used.
-    if (rc == 0 && g_pl_last > g_pl_toks && g_pl_toks >= 0) {
+    // outside the arrays.  Hook H6 reports exactly that access.  Such a parse is not judged, its tree is not used.
+    if (rc == 0 && g_pl_toks >= 0) {
       probe("kf1_parse_not_judged");
       release_parse_blocks(cur_op);
       logf("op %d PARSE -> not judged (known finding KF-1: parser list longer than the token list after error recovery)", cur_op);
@@ -1161,6 +1161,11 @@ RunResult execute_plan(const Plan &plan_in, const ExecOptions &opt) {
     RunResult r0 = execute_plan(p0, o0);
     for (auto &v : r0.violations) res.violations.push_back(v);
     res.stats.merge(r0.stats);
+    if (r0.stats.probes.count("run_aborted")) { // the library was left by a jump: it must not be used again in this process
+      res.log_hash = r0.log_hash;
+      res.resolved = plan_in;
+      return res;
+    }
     for (size_t i = 0; i < plan.ops.size(); i++) {
       Op &o = plan.ops[i];
       if (o.fault.type != Fault::ALLOC_FRAC) continue;
@@ -1187,6 +1192,7 @@ RunResult execute_plan(const Plan &plan_in, const ExecOptions &opt) {
     for (auto &l : ex.log) h = fnv1a(l, h);
     if (ex.aborted) res.stats.probes["run_aborted"]++;
     heap_forget_all();
+    if (ex.aborted) break;
   }
   // C16: both libraries must have produced the same history
   if (!opt.raw && plan.backends == 3) {
